@@ -13,7 +13,9 @@ INF = float('inf')
 
 NUM_OPS = {'neg': 16, 'add': 0, 'sub': 1, 'mul': 2, 'div': 3, 'abs': 15, 'min': 11, 'max': 12,
            'sum': 54, 'if': 35, 'count': 59, 'numberof': 60, 'pow2': 77, 'pow': 5,
-           'exp': 44, 'log': 43, 'sin': 41, 'cos': 46, 'sqrt': 39, 'tan': 38}
+           'exp': 44, 'log': 43, 'sin': 41, 'cos': 46, 'sqrt': 39, 'tan': 38, 'tanh': 37, 'sinh': 40,
+           'log10': 42, 'cosh': 45, 'atanh': 47, 'atan': 49, 'asinh': 50, 'asin': 51, 'acosh': 52,
+           'acos': 53, 'powc': 76, 'cpow': 78}
 LOG_OPS = {'lt': 22, 'le': 23, 'eq': 24, 'ge': 28, 'gt': 29, 'ne': 30, 'not': 34, 'and': 21,
            'or': 20, 'forall': 70, 'exists': 71, 'impl': 72, 'iff': 73, 'alldiff': 74,
            'nalldiff': 75, 'atleast': 62, 'atmost': 63, 'exactly': 66, 'natleast': 67,
@@ -38,7 +40,8 @@ def enc(e, out):
     if k == 'pl':
         slopes, bps, arg = e[1], e[2], e[3]
         assert len(slopes) == len(bps) + 1
-        out.append('p%d' % len(slopes))
+        assert arg[0] in ('v', 'd'), 'PL term argument must be a variable / defined-variable reference'
+        out.append('o64'); out.append('%d' % len(slopes))
         for i, s in enumerate(slopes):
             out.append('n' + fmtnum(s))
             if i < len(bps): out.append('n' + fmtnum(bps[i]))
@@ -102,6 +105,28 @@ def ev(e, x, dv=None):
     if k == 'sqrt':
         if a[0] < 0: raise EvalUndefined('sqrt')
         return math.sqrt(a[0])
+    if k == 'powc':
+        try:
+            if a[0] < 0 and not float(a[1]).is_integer(): raise EvalUndefined('pow')
+            if a[0] == 0 and a[1] < 0: raise EvalUndefined('pow')
+            return a[0] ** a[1]
+        except OverflowError: raise EvalUndefined('pow overflow')
+    if k == 'cpow': return a[0] ** a[1]
+    if k == 'log10':
+        if a[0] <= 0: raise EvalUndefined('log10')
+        return math.log10(a[0])
+    if k in ('asin', 'acos'):
+        if abs(a[0]) > 1: raise EvalUndefined(k)
+        return getattr(math, k)(a[0])
+    if k == 'acosh':
+        if a[0] < 1: raise EvalUndefined(k)
+        return math.acosh(a[0])
+    if k == 'atanh':
+        if abs(a[0]) >= 1: raise EvalUndefined(k)
+        return math.atanh(a[0])
+    if k in ('tanh', 'sinh', 'cosh', 'atan', 'asinh'):
+        try: return getattr(math, k)(a[0])
+        except OverflowError: raise EvalUndefined(k)
     if k == 'sin': return math.sin(a[0])
     if k == 'cos': return math.cos(a[0])
     if k == 'tan': return math.tan(a[0])
@@ -168,6 +193,19 @@ class Model:
         self.dvars = list(dvars)
         self.compl = dict(compl or {})
         self.suffixes = list(suffixes)
+        # NL allows only references as PL-term arguments: lift other arguments into defined variables
+        self.acons = [(self._lift_pl(e) if e is not None else None, lin, lb, ub) for (e, lin, lb, ub) in self.acons]
+        self.lcons = [self._lift_pl(e) for e in self.lcons]
+        self.objs = [(sn, self._lift_pl(e) if e is not None else None, lin) for (sn, e, lin) in self.objs]
+
+    def _lift_pl(self, e):
+        if e[0] in ('n', 'v', 'b', 'd'): return e
+        if e[0] == 'pl':
+            arg = self._lift_pl(e[3])
+            if arg[0] not in ('v', 'd'):
+                self.dvars.append(({}, arg)); arg = ('d', len(self.dvars) - 1)
+            return ('pl', e[1], e[2], arg)
+        return (e[0],) + tuple(self._lift_pl(a) for a in e[1:])
 
     @staticmethod
     def _norm_con(c):
